@@ -5,6 +5,7 @@ import Sigc.Lemmas.SpecPDefs
 import Sigc.Lemmas.SpecPEx
 import Sigc.Lemmas.SpecPWFMutual
 import Sigc.Lemmas.SpecPConn
+import Sigc.Lemmas.SpecPOwn
 /-!
 # SpecProps — the specification `S` (`Sigc.Spec`) means what the property statements say
 
@@ -854,7 +855,7 @@ example : (Spec.deref 5 exP exS 1 [2, 3, 4] { pos := 0 } 5).map (fun x => (x.2.2
 theorem accumulator_called_once_on_snapshot (f : Nat) (P : Prog) (s : LSt) (fl : Flavour) (i arg : Nat) (strat : Strat)
     (g : LSig) (hg : aget s.sigs i = some g) (hacc : fl.isAcc = true) :
     emitSig (f+1) P s fl (some i) arg strat =
-      (Spec.runStrat f P (enter s i g) i (snapOf s.k2 fl g) arg strat).map
+      (Spec.runStrat f P (enter s i g) i (snapOf s.k2 fl g) arg (strat.forFlavour fl)).map
         (fun x => (epi i s.next x.1, x.2.1, x.2.2)) := by
   rw [emitSig_eq f P s fl i arg strat g hg (by simp [hacc])]
   simp only [body, hacc, if_true]
@@ -1084,16 +1085,19 @@ example : ∃ s' hj', Spec.stepSimple exS (.mvG 5 0) = some (s', "ok") ∧ aget 
   exact ⟨s', hj', h1, h2, h3, by rw [h5]; rfl⟩
 
 /-- move-assignment `masgG j i` (`j ≠ i`, no accumulator): the destination takes over the source's list,
-    the source is left without list -/
+    the source is left without list.  The operation is refused (`owned`, see `masgG_owned_refused`) when a functor
+    owns the source, or — for a `trackable_signal` — the destination; `hown` excludes exactly that -/
 theorem masgG_transfers (s : LSt) (j i : Nat) (d h0 : Handle) (hj : aget s.G j = some d) (hi : aget s.G i = some h0)
-    (hne : j ≠ i) (hfl : d.fl = h0.fl) (hlvl : d.lvl = h0.lvl) (hacc : h0.fl.isAcc = false) :
+    (hne : j ≠ i) (hfl : d.fl = h0.fl) (hlvl : d.lvl = h0.lvl) (hacc : h0.fl.isAcc = false)
+    (hown : (s.ownedG.any (fun p => p.2 = i) || (h0.fl.isTrackable && s.ownedG.any (fun p => p.2 = j))) = false) :
     ∃ s', Spec.stepSimple s (.masgG j i) = some (s', "ok") ∧ aget s'.G j = some { d with impl := h0.impl } ∧
       aget s'.G i = some { h0 with impl := none } := by
   have hnf : ¬ (d.fl ≠ h0.fl) := fun h => h hfl
   have hnl : ¬ (d.lvl ≠ h0.lvl) := fun h => h hlvl
   have hs : ∃ s', Spec.stepSimple s (.masgG j i) = some (s', "ok") ∧
       s'.G = aset (aset s.G j { d with impl := h0.impl }) i { h0 with impl := none } := by
-    simp only [Spec.stepSimple, hj, hi, hnf, hnl, if_false, hacc, Bool.false_eq_true, hne]
+    simp only [Spec.stepSimple, hj, hi, hnf, hnl, if_false, hacc, Bool.false_eq_true, hne, hown, Bool.not_false,
+      Bool.and_false]
     refine ⟨_, rfl, ?_⟩
     cases d.impl <;> simp only <;> split <;> simp only [invalidateTrackable_G, gcSig_G]
   obtain ⟨s', h1, h2⟩ := hs
@@ -1103,7 +1107,7 @@ theorem masgG_transfers (s : LSt) (j i : Nat) (d h0 : Handle) (hj : aget s.G j =
 
 example : ∃ s', Spec.stepSimple exS (.masgG 1 0) = some (s', "ok") ∧ (aget s'.G 1).map (·.impl) = some (some 1) ∧
     (aget s'.G 0).map (·.impl) = some none := by
-  obtain ⟨s', h1, h2, h3⟩ := masgG_transfers exS 1 0 _ _ rfl rfl (by decide) rfl rfl rfl
+  obtain ⟨s', h1, h2, h3⟩ := masgG_transfers exS 1 0 _ _ rfl rfl (by decide) rfl rfl rfl rfl
   exact ⟨s', h1, by rw [h2]; rfl, by rw [h3]; rfl⟩
 
 /-- the list dies exactly when no signal object refers to it and no emission of it is running; until
@@ -1300,14 +1304,14 @@ example : ∀ c ∈ exSig.cells, c.id ≠ (insertCell exS 1 true (exSlot 9)).2 :
     the list; while another signal object refers to it, the list stays, with the same entries -/
 theorem delG_last_handle_drops_list (s : LSt) (g im : Nat) (h : Handle) (x : LSig)
     (hg : aget s.G g = some h) (hi : h.impl = some im) (hx : aget s.sigs im = some x)
-    (hpin : (h.everFwd && !h.fl.isTrackable) = false) :
+    (hpin : (h.everFwd && !h.fl.isTrackable) = false) (hown : s.ownedG.any (fun p => p.2 = g) = false) :
     ∃ s', Spec.stepSimple s (.delG g) = some (s', "ok") ∧ aget s'.G g = none ∧
       ((x.active = 0 ∧ ∀ p ∈ s.G, p.1 ≠ g → p.2.impl ≠ some im) → aget s'.sigs im = none) ∧
       ((∃ p ∈ s.G, p.1 ≠ g ∧ p.2.impl = some im) → h.fl.isTrackable = false → aget s'.sigs im = some x) := by
   cases ht : h.fl.isTrackable
   · rw [ht] at hpin
     have hs : Spec.stepSimple s (.delG g) = some (gcSig { s with G := adel s.G g } im, "ok") := by
-      simp only [Spec.stepSimple, hg, hpin, hi, ht, Bool.false_eq_true, if_false]
+      simp only [Spec.stepSimple, hg, hpin, hi, ht, hown, Bool.false_eq_true, if_false]
     have hx2 : aget ({ s with G := adel s.G g } : LSt).sigs im = some x := hx
     refine ⟨_, hs, ?_, ?_, ?_⟩
     · rw [gcSig_G]; exact aget_adel_same _ _
@@ -1324,7 +1328,7 @@ theorem delG_last_handle_drops_list (s : LSt) (g im : Nat) (h : Handle) (x : LSi
   · rw [ht] at hpin
     have hs : Spec.stepSimple s (.delG g) =
         some (gcSig { (invalidateTrackable s h.trk) with G := adel (invalidateTrackable s h.trk).G g } im, "ok") := by
-      simp only [Spec.stepSimple, hg, hpin, hi, ht, Bool.false_eq_true, if_false, if_true]
+      simp only [Spec.stepSimple, hg, hpin, hi, ht, hown, Bool.false_eq_true, if_false, if_true]
     have hx2 : aget ({ (invalidateTrackable s h.trk) with G := adel (invalidateTrackable s h.trk).G g } : LSt).sigs im =
         some (x.remove s.k1 s.k2 true (fun c => c.slot.tracksObj h.trk)) := by
       simp only [invalidateTrackable, aget_amap, hx, Option.map_some]
@@ -1341,5 +1345,219 @@ theorem delG_last_handle_drops_list (s : LSt) (g im : Nat) (h : Handle) (x : LSi
 example : ((Spec.stepSimple exS (.delG 0)).map (fun x => (aget x.1.sigs 1).map (·.cells.length))) = some (some 3) ∧
     (((Spec.stepSimple exS (.delG 0)).bind (fun x => Spec.stepSimple x.1 (.delG 1))).map
       (fun x => (aget x.1.sigs 1).map (·.cells.length))) = some none := by decide +kernel
+
+/-! ## functor-owned signal objects (`ownG:`): a functor family keeps a signal object alive
+
+`s.ownedG` lists the pairs (owner id `k`, name `g` of the signal object in `G`); the functor copies of the
+family carry `k` in their `ownsK` list, so `heldK s k` says whether a copy is still alive.  The name stays
+in `G` (the program may go on using it), but the program cannot destroy the object any more: `delG` is refused
+(`owned`), as are a move-assignment that would destroy it and a second `ownG:` of it.  The object dies in
+`collect`, once no functor copy holds `k`: `dropHandle`, which is exactly what an unrefused `delG` does. -/
+
+/-- a `delG` that is not refused (`dead` / `pinned` / `owned`) is `dropHandle` -/
+theorem delG_is_dropHandle (s : LSt) (g : Nat) (h : Handle) (hg : aget s.G g = some h)
+    (hpin : (h.everFwd && !h.fl.isTrackable) = false) (hown : s.ownedG.any (fun p => p.2 = g) = false) :
+    Spec.stepSimple s (.delG g) = some (dropHandle s g, "ok") := by
+  rw [dropHandle_eq s g h hg]
+  cases hi : h.impl <;> cases ht : h.fl.isTrackable <;> rw [ht] at hpin <;>
+    simp only [Spec.stepSimple, hg, hpin, hown, hi, ht, Bool.false_eq_true, if_false, if_true]
+
+example : Spec.stepSimple exS (.delG 0) = some (dropHandle exS 0, "ok") := delG_is_dropHandle exS 0 _ rfl rfl rfl
+
+/-- `delG` of a signal object owned by a functor is refused and changes nothing -/
+theorem delG_owned_refused (s : LSt) (k g : Nat) (hm : (k, g) ∈ s.ownedG) :
+    Spec.stepSimple s (.delG g) =
+      some (s, match aget s.G g with
+               | none => "dead"
+               | some h => if (h.everFwd && !h.fl.isTrackable) = true then "pinned" else "owned") := by
+  have hown : s.ownedG.any (fun p => p.2 = g) = true := by
+    simp only [List.any_eq_true, decide_eq_true_eq]; exact ⟨(k, g), hm, rfl⟩
+  cases hg : aget s.G g with
+  | none => simp only [Spec.stepSimple, hg]
+  | some h =>
+    cases hpin : (h.everFwd && !h.fl.isTrackable) with
+    | true => simp only [Spec.stepSimple, hg, hpin, if_true]
+    | false => simp only [Spec.stepSimple, hg, hpin, hown, Bool.false_eq_true, if_false, if_true]
+
+example : Spec.stepSimple { exS with ownedG := [(30, 1)] } (.delG 1) = some ({ exS with ownedG := [(30, 1)] }, "owned") :=
+  delG_owned_refused { exS with ownedG := [(30, 1)] } 30 1 (by decide)
+
+/-- move-assignment `masgG j i` (no accumulator) is refused when a functor owns the source, or — for a
+    `trackable_signal` — the destination: the complement of the hypothesis `hown` of `masgG_transfers` -/
+theorem masgG_owned_refused (s : LSt) (j i : Nat) (d h0 : Handle) (hj : aget s.G j = some d) (hi : aget s.G i = some h0)
+    (hfl : d.fl = h0.fl) (hlvl : d.lvl = h0.lvl) (hacc : h0.fl.isAcc = false)
+    (hown : (s.ownedG.any (fun p => p.2 = i) || (h0.fl.isTrackable && s.ownedG.any (fun p => p.2 = j))) = true) :
+    Spec.stepSimple s (.masgG j i) = some (s, "owned") := by
+  have hnf : ¬ (d.fl ≠ h0.fl) := fun h => h hfl
+  have hnl : ¬ (d.lvl ≠ h0.lvl) := fun h => h hlvl
+  simp only [Spec.stepSimple, hj, hi, hnf, hnl, if_false, hacc, hown, Bool.not_false, Bool.and_self, if_true]
+
+example : Spec.stepSimple { exS with ownedG := [(30, 0)] } (.masgG 1 0) = some ({ exS with ownedG := [(30, 0)] }, "owned") :=
+  masgG_owned_refused _ 1 0 _ _ rfl rfl rfl rfl rfl rfl
+
+/-- `ownG:fid:g` — the functor takes a share in the signal object `g`: a fresh owner id `k = s.next`, held by the
+    functor, is registered for the name `g`; nothing else changes (in particular `g` stays in `G`).  Refused for a
+    dead, a pinned (`fwd:`-referenced non-trackable) and an already owned signal object -/
+theorem ownG_registers (s : LSt) (isVoid : Bool) (fid g : Nat) (h : Handle) (hg : aget s.G g = some h)
+    (hpin : (h.everFwd && !h.fl.isTrackable) = false) (hown : s.ownedG.any (fun p => p.2 = g) = false) :
+    Spec.mkFun s isVoid (.ownG fid g) =
+      .ok (.owner fid [] [s.next], { s with next := s.next + 1, ownedG := (s.next, g) :: s.ownedG }) := by
+  simp only [Spec.mkFun, hg, hpin, hown, Bool.false_eq_true, if_false, LSt.fresh]
+
+example : Spec.mkFun exS false (.ownG 7 2) =
+    .ok (.owner 7 [] [20], { exS with next := 21, ownedG := [(20, 2)] }) := ownG_registers exS false 7 2 _ rfl rfl rfl
+
+/-- C14 (S-level counterpart of `functor_owned_handle_keeps_list`), first half: after a successful
+    `connfn k g ownG:fid:g0` the signal object `g0` is registered as owned by the new owner id, it is still a live
+    signal object, and `delG g0` is refused without any effect -/
+theorem connfn_ownG_keeps_handle (s s' : LSt) (k g fid g0 : Nat) (first : Bool)
+    (h : Spec.stepSimple s (.connfn k g (.ownG fid g0) first) = some (s', "ok")) :
+    s'.ownedG = (s.next, g0) :: s.ownedG ∧
+    ∃ h0, aget s'.G g0 = some h0 ∧
+      Spec.stepSimple s' (.delG g0) =
+        some (s', if (h0.everFwd && !h0.fl.isTrackable) = true then "pinned" else "owned") := by
+  have key : s'.ownedG = (s.next, g0) :: s.ownedG ∧ ∃ h0, aget s'.G g0 = some h0 := by
+    simp only [Spec.stepSimple] at h
+    cases hg : aget s.G g with
+    | none => simp [hg] at h
+    | some hd =>
+      simp only [hg] at h
+      cases hg0 : aget s.G g0 with
+      | none => simp [Spec.mkFun, hg0] at h
+      | some h0 =>
+        cases hpin : (h0.everFwd && !h0.fl.isTrackable) with
+        | true => simp [Spec.mkFun, hg0, hpin] at h
+        | false =>
+          cases hown : s.ownedG.any (fun p => p.2 = g0) with
+          | true => simp [Spec.mkFun, hg0, hpin, hown] at h
+          | false =>
+            have l1 : ¬ ((-1 : Int) ≥ (hd.lvl : Int)) := by omega
+            simp only [Spec.mkFun, hg0, hpin, hown, Bool.false_eq_true, if_false, LSt.fresh, Spec.specTaint, l1] at h
+            cases he : ensureSig { s with next := s.next + 1, ownedG := (s.next, g0) :: s.ownedG } g with
+            | none => simp [he] at h
+            | some x =>
+              obtain ⟨s2, im⟩ := x
+              simp only [he, Option.some.injEq, Prod.mk.injEq, and_true] at h
+              subst h
+              obtain ⟨_, h1, _, e1, _, _, _, _, _, e3, _⟩ := ensureSig_spec _ s2 g im he
+              refine ⟨?_, ?_⟩
+              · show (insertCell s2 im first _).1.ownedG = _
+                rw [(insertCell_frame _ _ _ _).2, ensureSig_ownedG _ _ _ _ he]
+              · show ∃ h0, aget (insertCell s2 im first _).1.G g0 = some h0
+                rw [(insertCell_frame _ _ _ _).1]
+                by_cases e : g0 = g
+                · subst e; exact ⟨h1, e1⟩
+                · rw [e3 g0 e]; exact ⟨h0, hg0⟩
+  obtain ⟨ho, h0, hg0⟩ := key
+  refine ⟨ho, h0, hg0, ?_⟩
+  have := delG_owned_refused s' s.next g0 (by rw [ho]; exact List.mem_cons_self)
+  rw [hg0] at this
+  exact this
+
+/-- C14 (S-level counterpart of `functor_owned_handle_keeps_list`), second half, for every state: `delG g` —
+    whatever it answers — leaves every other signal object `g0` of `G` (named by the program, or owned by a
+    functor: it is in `G` all the same) as it is, and the list `g0` refers to alive, with the same emissions in
+    progress, and with the same entries unless `g` is a `trackable_signal` (whose death disconnects the slots
+    tracking it) -/
+theorem delG_keeps_list_of_other_handle (s s' : LSt) (g g0 im : Nat) (h0 : Handle) (x : LSig) (r : String) (hne : g0 ≠ g)
+    (hg0 : aget s.G g0 = some h0) (hi : h0.impl = some im) (hx : aget s.sigs im = some x)
+    (h : Spec.stepSimple s (.delG g) = some (s', r)) :
+    aget s'.G g0 = some h0 ∧ ∃ x', aget s'.sigs im = some x' ∧ x'.active = x.active ∧
+      ((∀ hd, aget s.G g = some hd → hd.fl.isTrackable = false) → x' = x) := by
+  have hsame : s' = s → aget s'.G g0 = some h0 ∧ ∃ x', aget s'.sigs im = some x' ∧ x'.active = x.active ∧
+      ((∀ hd, aget s.G g = some hd → hd.fl.isTrackable = false) → x' = x) := by
+    intro e; subst e; exact ⟨hg0, x, hx, rfl, fun _ => rfl⟩
+  have hcase : aget s.G g = none ∨ ∃ hd, aget s.G g = some hd := by
+    cases aget s.G g with
+    | none => exact Or.inl rfl
+    | some hd => exact Or.inr ⟨hd, rfl⟩
+  rcases hcase with hg | ⟨hd, hg⟩
+  · simp only [Spec.stepSimple, hg, Option.some.injEq, Prod.mk.injEq] at h
+    exact hsame h.1.symm
+  · cases hpin : (hd.everFwd && !hd.fl.isTrackable) with
+    | true =>
+      simp only [Spec.stepSimple, hg, hpin, if_true, Option.some.injEq, Prod.mk.injEq] at h
+      exact hsame h.1.symm
+    | false =>
+      cases hown : s.ownedG.any (fun p => p.2 = g) with
+      | true =>
+        simp only [Spec.stepSimple, hg, hpin, hown, Bool.false_eq_true, if_false, if_true, Option.some.injEq,
+          Prod.mk.injEq] at h
+        exact hsame h.1.symm
+      | false =>
+        rw [delG_is_dropHandle s g hd hg hpin hown] at h
+        simp only [Option.some.injEq, Prod.mk.injEq] at h
+        obtain ⟨rfl, _⟩ := h
+        refine ⟨?_, dropHandle_keeps_list s g g0 im h0 x hne hg0 hi hx⟩
+        rw [dropHandle_G, aget_adel_other _ _ _ hne]; exact hg0
+
+/-- `exS`: signal objects 0 and 1 share list 1; whatever `delG 1` does, list 1 stays, referred to by 0 -/
+example : ∀ s' r, Spec.stepSimple exS (.delG 1) = some (s', r) → ∃ x', aget s'.sigs 1 = some x' ∧ x'.active = 0 :=
+  fun s' r h => by
+    obtain ⟨_, x', h1, h2, _⟩ := delG_keeps_list_of_other_handle exS s' 1 0 1 _ exSig r (by decide) rfl rfl rfl h
+    exact ⟨x', h1, h2⟩
+
+/-- C14 (S-level counterpart of `collect_drops_unheld_owned_handle`), one step: when every owned trackable and
+    every owned scoped connection is still held, and `(k, g)` is the first functor-owned signal object whose owner
+    id no functor copy holds, `collectStep` removes the entries of `k` and destroys the signal object `g`
+    (`dropHandle`, i.e. what an unrefused `delG g` does): the name `g` is gone, every other name is untouched -/
+theorem collectStep_drops_unheld_owned_handle (s : LSt) (k g : Nat)
+    (hT : ∀ o ∈ s.ownedT, heldT s o = true) (hK : ∀ p ∈ s.ownedK, heldK s p.1 = true)
+    (hG : s.ownedG.find? (fun p => !heldK s p.1) = some (k, g)) :
+    ∃ s', collectStep s = some s' ∧
+      s' = dropHandle { s with ownedG := s.ownedG.filter (fun q => q.1 ≠ k) } g ∧
+      aget s'.G g = none ∧ (∀ g', g' ≠ g → aget s'.G g' = aget s.G g') ∧
+      s'.ownedG = s.ownedG.filter (fun q => q.1 ≠ k) ∧ s'.ownedT = s.ownedT ∧ s'.ownedK = s.ownedK := by
+  have h1 : s.ownedT.find? (fun o => !heldT s o) = none := by
+    rw [List.find?_eq_none]; intro o ho; simp [hT o ho]
+  have h2 : s.ownedK.find? (fun p => !heldK s p.1) = none := by
+    rw [List.find?_eq_none]; intro p hp; simp [hK p hp]
+  refine ⟨_, ?_, rfl, ?_, ?_, ?_, ?_, ?_⟩
+  · simp only [collectStep, h1, h2, hG]
+  · rw [dropHandle_G]; exact aget_adel_same _ _
+  · intro g' hne; rw [dropHandle_G]; exact aget_adel_other _ _ _ hne
+  · rw [(dropHandle_owned _ _).2.2]
+  · rw [(dropHandle_owned _ _).1]
+  · rw [(dropHandle_owned _ _).2.1]
+
+/-- `collect` only releases: no name of a signal object appears, the owned lists only lose entries, and no
+    functor copy holding an owner id appears -/
+theorem collect_only_releases (s : LSt) :
+    (∀ g, aget s.G g = none → aget (Spec.collect s).G g = none) ∧
+    (Spec.collect s).ownedT.Sublist s.ownedT ∧ (Spec.collect s).ownedK.Sublist s.ownedK ∧
+    (Spec.collect s).ownedG.Sublist s.ownedG ∧ (∀ k, heldK (Spec.collect s) k = true → heldK s k = true) := by
+  have := shrink_collectN (s.ownedT.length + s.ownedK.length + s.ownedG.length) s
+  exact ⟨this.G, this.oT, this.oK, this.oG, this.held⟩
+
+/-- `collect` runs to the end: afterwards every object still owned by functors is held by some functor copy -/
+theorem collect_complete (s : LSt) :
+    (∀ o ∈ (Spec.collect s).ownedT, heldT (Spec.collect s) o = true) ∧
+    (∀ p ∈ (Spec.collect s).ownedK, heldK (Spec.collect s) p.1 = true) ∧
+    (∀ p ∈ (Spec.collect s).ownedG, heldK (Spec.collect s) p.1 = true) :=
+  (collectStep_none_iff _).1 (collectStep_collect s)
+
+/-- C14 (S-level counterpart of `collect_drops_unheld_owned_handle`): a functor-owned signal object whose owner id
+    no functor copy holds does not survive `collect` — its name is no longer in `G`, its owner id no longer
+    registered.  (`hnd`: owner ids are pairwise distinct — they are handed out by `fresh`; without it, the same
+    holds for the *first* name registered for `k`.) -/
+theorem collect_drops_unheld_owned_handle (s : LSt) (k g : Nat) (hnd : (s.ownedG.map (·.1)).Nodup)
+    (hm : (k, g) ∈ s.ownedG) (hh : heldK s k = false) :
+    aget (Spec.collect s).G g = none ∧ ∀ g', (k, g') ∉ (Spec.collect s).ownedG :=
+  collectN_drops k g _ s (Nat.le_refl _) hnd hm hh
+
+/-- `exS`: the functor of connection 9 takes a share in signal object 2; while the connection is there, `delG 2`
+    is refused; once it is disconnected, `collect` destroys signal object 2 -/
+example :
+    let s1 := ((Spec.stepSimple exS (.connfn 9 0 (.ownG 7 2) false)).map (·.1)).getD {}
+    let s2 := ((Spec.stepSimple s1 (.disc 9)).map (·.1)).getD {}
+    s1.ownedG = [(20, 2)] ∧ heldK s1 20 = true ∧ (Spec.stepSimple s1 (.delG 2)).map (·.2) = some "owned" ∧
+    (aget (Spec.collect s1).G 2).isSome = true ∧
+    heldK s2 20 = false ∧ (aget s2.G 2).isSome = true ∧ aget (Spec.collect s2).G 2 = none ∧
+    (Spec.collect s2).ownedG = [] := by decide +kernel
+
+example : ∀ s1 s2 r, Spec.stepSimple exS (.connfn 9 0 (.ownG 7 2) false) = some (s1, "ok") →
+    Spec.stepSimple s1 (.disc 9) = some (s2, r) → heldK s2 20 = false → (s2.ownedG.map (·.1)).Nodup →
+    (20, 2) ∈ s2.ownedG → aget (Spec.collect s2).G 2 = none :=
+  fun _ s2 _ _ _ hh hnd hm => (collect_drops_unheld_owned_handle s2 20 2 hnd hm hh).1
 
 end Sigc.SpecP
